@@ -917,6 +917,9 @@ func countPaths(fn *ssa.Function, start ssa.Instruction, isEnd, isM func(ssa.Ins
 func rangeChanLoops(fn *ssa.Function) []*loop {
 	var out []*loop
 	for _, l := range loopsOf(fn) {
+		if l.head.Comment != "rangechan.loop" {
+			continue
+		}
 		for _, in := range l.head.Instrs {
 			if u, ok := in.(*ssa.UnOp); ok && u.Op == token.ARROW && u.CommaOk {
 				out = append(out, l)
@@ -924,6 +927,26 @@ func rangeChanLoops(fn *ssa.Function) []*loop {
 		}
 	}
 	return out
+}
+
+// loopEarlyExit reports whether the loop can be left other than through its head
+// (edges into blocks that end in a panic do not count).
+func loopEarlyExit(l *loop) bool {
+	for b := range l.blocks {
+		if b == l.head {
+			continue
+		}
+		for _, s := range b.Succs {
+			if l.blocks[s] {
+				continue
+			}
+			if _, isPanic := s.Instrs[len(s.Instrs)-1].(*ssa.Panic); isPanic {
+				continue
+			}
+			return true
+		}
+	}
+	return false
 }
 
 func isLoopHeadStart(l *loop) func(ssa.Instruction) bool {
